@@ -105,7 +105,8 @@ def generate(rng, tier, run, seed=0):
                     qv = s.get(qe, qc)
                     qual = qv if qv in codes and qv and qv.isalnum() and qv.upper() == qv else None
                 comps = {str(i + 1): len(c.children) for i, c in enumerate(s.node.children) if c.kind == 'composite'}
-                inst_rows[key].append([s.node.path(), [list(y) for y in s.inst], s.node.id, s.node.uid, qual, len(s.node.children), comps])
+                inst_rows[key].append([s.node.path(), [list(y) for y in s.inst], s.node.id, s.node.uid, qual, len(s.node.children), comps,
+                                       len(s.vals)])
                 break
     pick = None
     for n, (key, depth) in enumerate(order):
@@ -163,6 +164,20 @@ def generate(rng, tier, run, seed=0):
                     # an edit burst on one segment: several writes to different positions of the same segment (first far out,
                     # then into the gap), each followed by the whole-tree comparison
                     row = next((r_ for r_ in rows if p.split('[')[0].rstrip('0123456789-').endswith(r_[2])), None)
+                    gap_rows = [r_ for r_ in rows if len([k for k in r_[6] if int(k) > r_[7]]) >= 2 and max(int(k) for k in r_[6]) >= r_[7] + 3]
+                    if gap_rows and rng.random() < 0.5:
+                        # far beyond the end first (blank elements are padded in), then a component write into one of the padded blanks
+                        gr = rng.choice(gap_rows)
+                        base_p = '/'.join([x[0] for x in gr[1][depth + 1:]] + [gr[2]]) + ('[%s]' % gr[4] if gr[4] else '')
+                        far = max(int(k) for k in gr[6])
+                        mids = [int(k) for k in gr[6] if gr[7] < int(k) < far]
+                        ops.append({'op': 'set_value', 'h': 0, 'path': '%s%02d-%d' % (base_p, far, rng.randint(1, max(1, gr[6][str(far)]))), 'shape': 'gap-far',
+                                    'val': 'F' + o['val'][:3]})
+                        if mids:
+                            mid = rng.choice(mids)
+                            ops.append({'op': 'set_value', 'h': 0, 'path': '%s%02d-%d' % (base_p, mid, rng.randint(1, max(1, gr[6][str(mid)]))), 'shape': 'gap-mid',
+                                        'val': 'M' + o['val'][:3]})
+                        continue
                     if row is not None:
                         ops.append(o)
                         for _ in range(rng.choice([1, 2, 3])):
